@@ -30,6 +30,27 @@ def jsonable(v):
     return v
 
 
+def v2_json(e):
+    import dataclasses
+    import enum
+    if dataclasses.is_dataclass(e) and not isinstance(e, type):
+        d = {"_cls": type(e).__name__}
+        for k in e.__dataclass_fields__:
+            if k.startswith("_source") or k in ("_source",):
+                continue
+            d[k] = v2_json(getattr(e, k))
+        return d
+    if isinstance(e, enum.Enum):
+        return e.value
+    if isinstance(e, dict):
+        return {str(k): v2_json(v) for k, v in e.items() if k != "_source"}
+    if isinstance(e, (list, tuple)):
+        return [v2_json(x) for x in e]
+    if isinstance(e, (str, int, float, bool)) or e is None:
+        return e
+    return repr(e)
+
+
 if __name__ == "__main__":
     ap = argparse.ArgumentParser()
     ap.add_argument("prop")
@@ -52,6 +73,9 @@ if __name__ == "__main__":
             for f in parsed["flows"]:
                 els = f["elements"] if isinstance(f, dict) else None
                 if els is None:
+                    # Colang 2.x: Flow dataclasses with the UNEXPANDED element tree (If / When / SpecOp / Assignment / Global / ...)
+                    out[f.name] = dict(elements=[v2_json(e) for e in f.elements], source_code=f.source_code or "",
+                                       parameters=[p_.name for p_ in f.parameters], decorators=[d.name for d in f.decorators])
                     continue
                 clean = []
                 for e in els:
